@@ -310,6 +310,47 @@ def work_cross(task):
                     if bnd < 10 and pos not in eq_b:
                         ev.violations.append({"property": PID, "reason": "generic binding code %d differs between %s and %s" % (bnd, a, b),
                                               "signature": "C18:cross:gb%d:%s:%s" % (bnd, a, b)})
+        # one `label` / `binding` word that sees symbols of several machines -- in one execution, and as one compiled
+        # query executed on one file after the other: every symbol is rendered in the family of *its* file
+        alone = {}
+        for m in ms:
+            r = drv.run("(|A| [A symbol label \"%s\"] [A symbol binding \"%s\"] [A symbol label] [A symbol binding])", "V%d" % hs[m], limit=5, steps=10000000)
+            alone[m] = [[(e.get("x"), e.get("v"), e.get("d")) for e in c["e"]] for c in r["res"][0][-4:]] if r.get("res") else None
+        for a in ms:
+            for b in ms:
+                if a == b or alone[a] is None or alone[b] is None:
+                    continue
+                r = drv.run("(|A B| [(A, B) symbol label \"%s\"] [(A, B) symbol binding \"%s\"] [(A, B) symbol label] [(A, B) symbol binding])",
+                            "V%d V%d" % (hs[a], hs[b]), limit=5, steps=10000000)
+                ev.case(key=("both", a, b), nontrivial=True)
+                ev.label("one-word-two-machines")
+                got = [[(e.get("x"), e.get("v"), e.get("d")) for e in c["e"]] for c in r["res"][0][-4:]] if r.get("res") else None
+                want = [x + y for x, y in zip(alone[a], alone[b])]
+                if got != want:
+                    k = next((k for k in range(4) if got is None or got[k] != want[k]), 0)
+                    j = next((j for j in range(len(want[k])) if got is None or j >= len(got[k]) or got[k][j] != want[k][j]), 0)
+                    show = lambda t: (bytes.fromhex(t[0]).decode("latin-1") if t[0] else "%s (%s)" % (t[1], t[2]))
+                    ev.violations.append({"property": PID, "signature": "C18:both:%s:%s" % (a, b),
+                                          "reason": "one `%s` word over a %s file and then a %s file: entry #%d comes out as %s, on its file alone as %s"
+                                          % (("label", "binding", "label", "binding")[k], a, b, j, show(got[k][j]) if got and j < len(got[k]) else None, show(want[k][j]))})
+                pr = drv.parse("symbol [label \"%s\", binding \"%s\"]")
+                if "q" in pr:
+                    seqs = []
+                    for m in (a, b, a):
+                        rr = drv.req("runq %d 1000 10000000 V%d" % (pr["q"], hs[m]))
+                        seqs.append([[e.get("x") for e in st[-1]["e"]] for st in rr.get("res", [])])
+                    drv.req("qdestroy %d" % pr["q"])
+                    ev.case(key=("seq", a, b), nontrivial=True)
+                    ev.label("one-query-two-machines")
+                    for m, sq in zip((a, b, a), seqs):
+                        want2 = [[x[0], y[0]] for x, y in zip(alone[m][0], alone[m][1])]
+                        if sq != want2:
+                            j = next((j for j in range(len(want2)) if j >= len(sq) or sq[j] != want2[j]), 0)
+                            ev.violations.append({"property": PID, "signature": "C18:seq:%s:%s" % (a, b),
+                                                  "reason": "one compiled query executed on a %s, a %s and the %s file again: on the %s file entry #%d is %r, executed on that file alone %r"
+                                                  % (a, b, a, m, j, [bytes.fromhex(x).decode("latin-1") for x in sq[j]] if j < len(sq) else None,
+                                                     [bytes.fromhex(x).decode("latin-1") for x in want2[j]])})
+                            break
         # the named words of a family equal the codes of a file of that machine only
         for m, word, code in (("ARM", "STT_ARM_TFUNC", 13), ("SPARC", "STT_SPARC_REGISTER", 13), ("PARISC", "STT_PARISC_MILLICODE", 13),
                               ("ARM", "STT_ARM_16BIT", 15), ("MIPS", "STB_MIPS_SPLIT_COMMON", 13)):
